@@ -893,9 +893,9 @@ fn worker(opts: Opts) -> i32 {
         // pairs of faults (and "every file but one deleted"): thorough, histories of <= 3 operations
         // (quick: of 1 operation). A difference that one of the two faults causes alone is that
         // single-fault result again (reported or listed there); only what the combination adds is new.
-        // quick: also four short histories that hold a checkpoint (a derived member whose loss is
+        // quick: also two short histories that hold a checkpoint (a derived member whose loss is
         // covered by a fall-back to another member: the pair takes both away)
-        let with_checkpoint: [Vec<HOp>; 4] = [vec![HOp::Msg, HOp::Ckpt], vec![HOp::Msg, HOp::Msg, HOp::Ckpt], vec![HOp::Msg, HOp::Auto], vec![HOp::Run, HOp::Ckpt]];
+        let with_checkpoint: [Vec<HOp>; 2] = [vec![HOp::Msg, HOp::Msg, HOp::Ckpt], vec![HOp::Run, HOp::Ckpt]];
         let pairs = h.len() <= tier.pick(1, 3) || with_checkpoint.contains(h);
         check_history(&report, &rt, h, pairs, tier == Tier::Quick);
         if shard == 0 && i < 3 * of {
